@@ -15,6 +15,7 @@
 // output: "ORACLE ok|VIOL ...", then "F id tid word op old new func" records (word 0 = os_obj_ref_cnt, 1 = os_obj_xref_cnt)
 #define _GNU_SOURCE
 #include <dispatch/dispatch.h>
+extern void _Block_release(const void *);
 #include <stdio.h>
 #include <stdint.h>
 #include <stdlib.h>
@@ -200,8 +201,31 @@ static void data_round(void){ enum { N=5 }; _Atomic int *d=calloc(N,sizeof *d); 
     dispatch_release(objs[k]); objs[k]=objs[--no]; }
   for(int w=0; w<5000; w++){ int all=1; for(int j=0;j<N;j++) if(!atomic_load(&d[j])) all=0; if(all) break; usleep(200); }
   for(int j=0;j<N && !viol;j++) if(atomic_load(&d[j])!=1) fail("a data destructor did not run exactly once after the last reference to its data was dropped: leaf/runs",j,atomic_load(&d[j]),0); }
+// a group with several notifications pending when it becomes empty (the notification list owns ONE reference of the group, whatever its
+// length), several times over; the application's reference outlives them; then the last release
+static void group_round(void){ struct sq *x=calloc(1,sizeof *x); dispatch_group_t g=dispatch_group_create(); dispatch_set_context(g,x); dispatch_set_finalizer_f(g,sq_fin);
+  dispatch_queue_t q1=dispatch_queue_create("gq",NULL), q2=dispatch_get_global_queue(0,0); __block _Atomic int ran=0; int total=0;
+  for(int cycle=0; cycle<2 && !viol; cycle++){ int n=1+(int)(rnd()%4), enters=1+(int)(rnd()%3); total+=n;
+    for(int i=0;i<enters;i++) dispatch_group_enter(g);
+    for(int i=0;i<n;i++) dispatch_group_notify(g, rnd()%2?q1:q2, ^{ atomic_fetch_add(&ran,1); });
+    if(atomic_load(&ran)!=total-n) fail("a group notification ran while the group was not empty: ran/expected",atomic_load(&ran),total-n,0);
+    for(int i=0;i<enters;i++) dispatch_group_leave(g);
+    for(int w=0; w<25000 && atomic_load(&ran)<total; w++) usleep(200);
+    if(atomic_load(&ran)!=total) fail("the notifications of a group that became empty did not each run exactly once within 5 s: pending / ran in total / expected in total",n,atomic_load(&ran),total);
+    usleep(200);
+    if(atomic_load(&x->fins)) fail("a group was finalised while the application still held its reference (several notifications were pending when it became empty): notifications/finalizer runs",n,atomic_load(&x->fins),0); }
+  dispatch_release(g); dispatch_release(q1);
+  for(int w=0; w<25000 && !atomic_load(&x->fins); w++) usleep(200);
+  if(!viol && atomic_load(&x->fins)!=1) fail("a group was not finalised exactly once within 5 s of its last release: finalizer runs",atomic_load(&x->fins),0,0);
+  // the same through a block object's private group: two or three notifications on one block object
+  if(!viol){ __block _Atomic int body=0, nn=0; dispatch_block_t b=dispatch_block_create(0,^{ atomic_fetch_add(&body,1); }); int n=2+(int)(rnd()%2);
+    for(int i=0;i<n;i++) dispatch_block_notify(b,q2,^{ atomic_fetch_add(&nn,1); });
+    dispatch_async(q2,b); for(int w=0; w<25000 && atomic_load(&nn)<n; w++) usleep(200);
+    if(atomic_load(&nn)!=n || atomic_load(&body)!=1) fail("the notifications of a block object did not each run exactly once after its execution (5 s): expected/ran/body runs",n,atomic_load(&nn),atomic_load(&body));
+    if(!viol && dispatch_block_wait(b,dispatch_time(DISPATCH_TIME_NOW,1000000000ll))) fail("dispatch_block_wait on a completed block object with several notifications timed out",n,0,0);
+    _Block_release(b); } }
 static int nrounds, do_trace;
-static void *worker(void *a){ long me=(long)a; for(int r=0;r<nrounds && !viol;r++){ hierarchy(do_trace && me==0); if(r%4==0) source_round(); if(r%5==1) timer_reclock_round(); if(r%4==2) suspend_round(); if(r%3==0) data_round(); if(r%2==0) retarget_round(do_trace && me==0); } return 0; }
+static void *worker(void *a){ long me=(long)a; for(int r=0;r<nrounds && !viol;r++){ hierarchy(do_trace && me==0); if(r%4==0) source_round(); if(r%5==1) timer_reclock_round(); if(r%4==2) suspend_round(); if(r%3==0) data_round(); if(r%3==1) group_round(); if(r%2==0) retarget_round(do_trace && me==0); } return 0; }
 static void on_crash(int sig){ char b[220]; int n=snprintf(b,sizeof b,"ORACLE VIOL seed=%llu the library trapped or crashed (signal %d) during object life cycles (its own over-release / resurrection / corrupt-state check, or a use after free)\n",(unsigned long long)seed,sig); if(n>0) (void)!write(1,b,(size_t)n); _exit(1); }
 int main(int argc,char**argv){ seed=argc>1?strtoull(argv[1],0,0):1; nrounds=argc>2?atoi(argv[2]):60; int nthr=argc>3?atoi(argv[3]):3; do_trace=1;
   if(!getenv("ASAN_OPTIONS")){ signal(SIGILL,on_crash); signal(SIGSEGV,on_crash); signal(SIGABRT,on_crash); signal(SIGBUS,on_crash); }
